@@ -319,6 +319,7 @@ def sites(tier):
                     for k1, k2 in (("SNV", "SNV"), ("SNV", "INS"), ("DEL", "SNV")):
                         if symoff in (-6, 3):
                             out.append(("sym", ("pair", k1, k2, 30, seed0), symalt, symoff))
+        out.append(("tins", seed0 + rep))
         # one record with two ALT alleles (multi-allelic reading, as under polyphase)
         for config in MAV_CONFIGS:
             out.append(("mav", config, seed0 + rep))
@@ -341,6 +342,8 @@ def run_site(site):
 
     if site[0] == "mav":
         return run_mav(site)
+    if site[0] == "tins":
+        return run_tins(site)
     sym = None
     if site[0] == "sym":
         # a record with a symbolic ALT (ignored by allele detection) in the list, before or behind the site's variants
@@ -560,6 +563,54 @@ def run_mav(site):
                     nt += 1
                 outcomes.add((mode, "mav", config.split("-")[0], bool(g)))
     return Result(n=n, nontrivial=nt, violations=viols[:12], outcomes=outcomes)
+
+
+def run_tins(site):
+    """an insertion directly in front of a listed SNV that the read does not overlap: the alignment continues behind a
+    reference skip that contains the SNV.  No allele may be recorded for it."""
+    from whatshap.core import NumericSampleIds
+    from whatshap.variants import ReadSetReader
+    from whatshap.vcf import VcfReader
+
+    _, seed = site
+    seq = synth.make_reference(seed, 260)
+    v = synth.make_variant(seq, V, "SNV")
+    alns, exp = [], {}
+    for n_ins in (1, 2, 3):
+        for base_kind in ("alt", "ref", "other"):
+            b = {"alt": v.alts[0], "ref": v.ref, "other": synth.other_base(v.ref, 2)}[base_kind]
+            for tail in ("skip",):  # (an alignment does not END with an insertion: aligners clip such bases - assumption of this check)
+                for lead in (5, 20):
+                    q = seq[V - lead : V] + b * n_ins
+                    cig = [(0, lead), (1, n_ins)]
+                    if tail == "skip":
+                        cig += [(3, 50), (0, 20)]
+                        q += seq[V + 50 : V + 70]
+                    nm = f"t{len(alns)}"
+                    alns.append({"name": nm, "chrom": "chrA", "start": V - lead, "cigar": cig, "seq": q, "rg": "rg1", "flag": 0, "qual": 30, "mate": None})
+                    exp[nm] = {"style": f"ins-then-{tail}", "geom": (n_ins, base_kind, lead)}
+    viols = []
+    n = 0
+    with synth.Scratch("c06") as sc:
+        fasta = synth.write_fasta(os.path.join(sc.path, "ref.fa"), [("chrA", seq)])
+        vcf = synth.VcfText(["S1"], contigs=[("chrA", len(seq))])
+        vcf.add("chrA", v.pos, v.ref, v.alts, ["0/1"])
+        vcf_path = vcf.write(os.path.join(sc.path, "in.vcf"))
+        bam = os.path.join(sc.path, "reads.bam")
+        synth.write_bam(bam, [("chrA", len(seq))], alns, read_groups=[{"ID": "rg1", "SM": "S1"}])
+        with VcfReader(vcf_path) as vr:
+            tables = list(vr)
+        wvars = tables[0].variants
+        for mode in ("ref", "noref"):
+            nsi = NumericSampleIds()
+            with ReadSetReader([bam], reference=fasta if mode == "ref" else None, numeric_sample_ids=nsi, mapq_threshold=20) as rsr:
+                rs = rsr.read("chrA", wvars, "S1", seq if mode == "ref" else None)
+            got = {r.name: [x.allele for x in r] for r in rs}
+            for nm, e in exp.items():
+                n += 1
+                if got.get(nm):
+                    viols.append(_v("spurious", mode, site, nm, e, f"allele {got[nm][0]} recorded for {v}, which lies behind the last aligned base of the read's first block (the read does not overlap it)", sub=":insertion-before-variant"))
+    return Result(n=n, nontrivial=n, violations=viols[:12], outcomes={("tins", bool(viols))})
 
 
 def _lev(a, b):
